@@ -43,6 +43,15 @@ def check_case(ctx, cs):
         return
     before = [copy.deepcopy(project(e)) for e in elems]
     site = "operations." + op
+    # (the weights of rational elements re-assigned from a scratch list that is overwritten afterwards)
+    if inplace:
+        from ..adapter import reassign_weights_from_scratch_list
+        for e_ in elems:
+            try:
+                reassign_weights_from_scratch_list(e_)
+            except Exception as ex:
+                ctx.violate("NURBS.weights.setter", tg + ["raises"], small, {"exception": repr(ex)[:200]})
+                return
     # (a loop over the container / shape left early, as a look-up loop does: iteration state must not leak into the operation)
     try:
         next(iter(target))
